@@ -5,6 +5,6 @@ P: coarsening of a component level never goes below lmin (C03 contract); global 
 The deciding part is the bounded layer B."""
 from contracts import C03, C09
 
-CONTRACTS = [C03.Modify(), C09.ComputeWeights(), C09.ComputeWeightsModified(), C09.ComputeWeightsModified3(), C09.ComputeWeightsModified4()]
+CONTRACTS = [C03.Modify(lmin_is_property=True), C09.ComputeWeights(), C09.ComputeWeightsModified(), C09.ComputeWeightsModified3(), C09.ComputeWeightsModified4()]
 LEMMAS = list(C09.LEMMAS)
 ASSUMPTIONS = C03.ASSUMPTIONS + C09.ASSUMPTIONS
